@@ -17,7 +17,9 @@ def build(ctx):
 
 
 def bounded(ctx):
-    common.suites(ctx, ['dist', 'far', 'mix', 'pseudo', 'align'], {'label', 'target'})
+    common.suites(ctx, ['dist', 'far', 'mix', 'pseudo', 'align', 'rand'], {'label', 'target'})
+    ctx.task('bounded.tasks:split_task', 'mix')
+    ctx.task('bounded.tasks:split_task', 'rand')
 
 
 def explanation(ctx):
